@@ -162,6 +162,8 @@ class _Run:
         for _ in range(n_nodes):
             seeds.append(H.pop(t.weighted([6, 4, 2, 1, 1, 1][:len(H)], "config.hashseed")))
         self.n_ops = t.between(10, 60, "config.ops")
+        self.workload = t.weighted([3, 1], "config.workload")      # 0: histories, 1: value sweep
+        self.ctx.workload = ("cluster-history", "value-sweep")[self.workload]
         self.corpus_bias = t.weighted([3, 3, 2], "config.corpus-bias")
         # real restarts (kill -9, new process, new hash seed) are rationed: allowed in a quarter of the runs,
         # at most two per run
@@ -170,20 +172,21 @@ class _Run:
         if restart_allowed:
             ctx.fault_configured("restart")
         ctx.fault_configured("drop-node")
-        ctx.decide("config", n_nodes, tuple(seeds), self.n_ops, self.corpus_bias, restart_allowed)
+        ctx.decide("config", n_nodes, tuple(seeds), self.n_ops, self.corpus_bias, restart_allowed, self.workload)
         for i, s in enumerate(seeds):
             self.nodes.append(_LNode(i, s, self.pool.acquire(s)))
 
     # -- recipes ---------------------------------------------------------------------------------------
-    def new_recipe(self) -> int:
+    def new_recipe(self, source: Optional[int] = None, entry=None) -> int:
         from checks import c11_gen
         t = self.t
-        source = t.weighted(RECIPE_SOURCE_WEIGHTS[self.corpus_bias], "recipe.source")
+        if source is None:
+            source = t.weighted(RECIPE_SOURCE_WEIGHTS[self.corpus_bias], "recipe.source")
         rec = None
         if source == 2:
             # a stored example whose literals are changed under tape control: a legal instance (if the
             # constructors accept it) with non-default / falsy / unsorted arguments, for ~every registered class
-            pkg, name = t.pick(self.check.corpus_outward, "recipe.corpus-entry")
+            pkg, name = entry if entry is not None else t.pick(self.check.corpus_outward, "recipe.corpus-entry")
             text, how = c11_gen.mutate_repr(t, self.check.corpus_text[(pkg, name)])
             if text is not None:
                 dig = hashlib.sha1(text.encode()).hexdigest()[:8]
@@ -224,13 +227,15 @@ class _Run:
             self.call(node, {"op": "drop", "slot": oldest}, "drop")
             del node.held[oldest]
 
-    def op_build(self) -> None:
-        node = self.pick_node("build.node")
-        reuse = [i for i in range(len(self.recipes)) if not self.recipes[i].get("rejected")]
-        if reuse and self.t.chance(1, 4, "build.reuse-recipe"):
-            rid = self.t.pick(reuse, "build.recipe")
-        else:
-            rid = self.new_recipe()
+    def op_build(self, node: Optional[_LNode] = None, rid: Optional[int] = None) -> Optional[int]:
+        if node is None:
+            node = self.pick_node("build.node")
+        if rid is None:
+            reuse = [i for i in range(len(self.recipes)) if not self.recipes[i].get("rejected")]
+            if reuse and self.t.chance(1, 4, "build.reuse-recipe"):
+                rid = self.t.pick(reuse, "build.recipe")
+            else:
+                rid = self.new_recipe()
         self.make_room(node)
         slot = node.new_slot()
         self.ctx.decide("build", node.idx, slot, self.label(rid))
@@ -240,17 +245,21 @@ class _Run:
             rec["rejected"] = True
             self.ctx.event("rejected", rec.get("how"), resp["exc_type"])
             self.ctx.probe("mutated-repr-rejected")
-            return
+            if resp["exc_type"] == "zero-qubit-stabilizer":
+                self.ctx.probe("mutated-zero-qubit-stabilizer-discarded")
+            return None
         if rec["kind"] == "mutated":
             self.ctx.probe("mutated-repr-accepted")
         node.held[slot] = _Held(rid, "build", 0, ((node.idx, node.gen),), family=resp["family"])
         rec.setdefault("type", resp["type"])
         rec.setdefault("cirq_top", resp["cirq_top"])
         self.ctx.event("built", resp["type"])
+        return slot
 
-    def op_touch(self) -> None:
-        node = self.pick_node("touch.node", lambda n: n.held)
-        slot = self.pick_held(node, "touch.slot")
+    def op_touch(self, node: Optional[_LNode] = None, slot: Optional[int] = None) -> None:
+        if node is None:
+            node = self.pick_node("touch.node", lambda n: n.held)
+            slot = self.pick_held(node, "touch.slot")
         n_kinds = 1 + self.t.weighted([3, 3, 2], "touch.count")
         kinds = []
         for _ in range(n_kinds):
@@ -344,16 +353,19 @@ class _Run:
             return [c11_gen.Gen(t).condition()]
         return []
 
-    def op_derive(self) -> None:
+    def op_derive(self, node: Optional[_LNode] = None, slot: Optional[int] = None) -> Optional[int]:
         """Derive a new value from a held one through a public method -- after its caches were touched, after
         hops, after copies -- and compare with the same derivation of a fresh untouched equal value."""
         t, ctx = self.t, self.ctx
-        node = self.pick_node("derive.node", lambda n: any(h.family in DERIVATIONS for h in n.held.values()))
         if node is None:
-            return
-        slots = [s for s in sorted(node.held) if node.held[s].family in DERIVATIONS]
-        slot = slots[len(slots) - 1 - t.draw(len(slots), "derive.slot")]
+            node = self.pick_node("derive.node", lambda n: any(h.family in DERIVATIONS for h in n.held.values()))
+            if node is None:
+                return None
+            slots = [s for s in sorted(node.held) if node.held[s].family in DERIVATIONS]
+            slot = slots[len(slots) - 1 - t.draw(len(slots), "derive.slot")]
         h = node.held[slot]
+        if h.family not in DERIVATIONS:
+            return None
         base = self.recipes[h.rid]
         method = t.pick(DERIVATIONS[h.family], "derive.method")
         args = self.derive_args(method)
@@ -363,10 +375,10 @@ class _Run:
             depth += 1
             r = r[3]
         if depth >= 2:
-            return
+            return None
         self.make_room(node)
         if slot not in node.held:
-            return
+            return None
         new_slot = node.new_slot()
         ctx.decide("derive", node.idx, slot, new_slot, method, json.dumps(args))
         resp = self.call(node, {"op": "derive", "slot": slot, "new_slot": new_slot, "method": method, "args": args,
@@ -374,7 +386,7 @@ class _Run:
         if resp["na"]:
             ctx.event("derive-na", resp["why"].split(":")[0])
             ctx.probe("derive-not-applicable")
-            return
+            return None
         ctx.probe("derive")
         if h.touched or h.hash_cached:
             ctx.probe("derive-after-touch")
@@ -389,7 +401,7 @@ class _Run:
             ctx.event("derive-not-comparable")
             ctx.probe("derive-source-writes-another-document")
             self.call(node, {"op": "drop", "slot": new_slot}, "drop")
-            return
+            return None
         self.check_verdict(resp["verdict"], f"{P}-DERIVED", f"derive:{method}", base["label"],
                            f"{method}() on node {node.idx} (PYTHONHASHSEED={node.seed}) of a held value (arrived via "
                            f"{h.via}, hops {h.hops}, touched {sorted(h.touched)}, hash cached: {h.hash_cached}) "
@@ -400,6 +412,7 @@ class _Run:
         self.recipes.append(rec)
         node.held[new_slot] = _Held(len(self.recipes) - 1, "derive", h.hops, h.procs, hash_cached=True,
                                     family=resp["family"])
+        return new_slot
 
     def op_export(self) -> None:
         node = self.pick_node("export.node", lambda n: n.held)
@@ -412,7 +425,7 @@ class _Run:
             return
         self.export_one(node, slot, TRANSPORTS[self.t.weighted(TRANSPORT_WEIGHTS, "export.transport")])
 
-    def export_one(self, node: _LNode, slot: int, transport: str) -> None:
+    def export_one(self, node: _LNode, slot: int, transport: str) -> Optional[dict]:
         h = node.held[slot]
         rec = self.recipes[h.rid]
         if transport == "repr" and not rec.get("cirq_top", False):
@@ -423,7 +436,7 @@ class _Run:
         if resp["unsupported"]:
             self.ctx.event("unsupported", "export", transport, rec.get("type"))
             self.ctx.probe("unsupported:pickle")
-            return
+            return None
         ctx = self.ctx
         if transport.startswith("pickle") and h.hash_cached:
             ctx.probe("pickle-of-hash-cached-value")
@@ -446,11 +459,13 @@ class _Run:
         self.messages.append(msg)
         if len(self.messages) > MAX_MESSAGES:
             self.messages.pop(0)
+        return msg
 
-    def op_import(self) -> None:
+    def op_import(self, m: Optional[dict] = None) -> None:
         t, ctx = self.t, self.ctx
-        # value 0 = the newest message
-        m = self.messages[len(self.messages) - 1 - t.draw(len(self.messages), "import.message")]
+        if m is None:
+            # value 0 = the newest message
+            m = self.messages[len(self.messages) - 1 - t.draw(len(self.messages), "import.message")]
         # prefer a node other than the source (a hop); value 0 = first other node
         others = [n for n in self.nodes if (n.idx, n.gen) != m["src"][:2]]
         same = [n for n in self.nodes if (n.idx, n.gen) == m["src"][:2]]
@@ -653,10 +668,51 @@ class _Run:
             self.sample_ops.append(kind)
         getattr(self, "op_" + kind.replace("-", "_"))()
 
+    def value_sweep(self) -> None:
+        """Workload "value-sweep": many values, short histories.  One stored example is taken and 4-10 different
+        mutants of it (now and then a generated value instead) are each built, perhaps touched, perhaps derived
+        from, and sent through JSON, repr and a pickle protocol to other nodes.  Same operations and oracles as
+        the history workload; the tape decides everything."""
+        t = self.t
+        entry = t.pick(self.check.corpus_outward, "sweep.entry")
+        n_items = t.between(4, 10, "sweep.items")
+        self.ctx.decide("value-sweep", f"{entry[0]}/{entry[1]}", n_items)
+        for _ in range(n_items):
+            generated = t.chance(1, 4, "sweep.generated")
+            rid = self.new_recipe(source=0 if generated else 2, entry=entry)
+            node = self.pick_node("sweep.node")
+            slot = self.op_build(node, rid)
+            self.ctx.steps += 1
+            if slot is None:
+                continue
+            if t.chance(1, 2, "sweep.touch"):
+                self.op_touch(node, slot)
+            subjects = [slot]
+            if t.chance(1, 2, "sweep.derive"):
+                d = self.op_derive(node, slot)
+                if d is not None:
+                    subjects.append(d)
+            for sl in subjects:
+                if sl not in node.held:
+                    continue
+                for transport in ("json", "repr", TRANSPORTS[t.pick((1, 3, 5, 6, 2), "sweep.transport")]):
+                    m = self.export_one(node, sl, transport)
+                    self.ctx.steps += 1
+                    if m is not None and (transport == "json" or t.chance(2, 3, "sweep.import")):
+                        self.op_import(m)
+                        self.ctx.steps += 1
+            if t.chance(1, 3, "sweep.report") and any(n.held for n in self.nodes):
+                self.op_report(self.pick_node("sweep.report.node", lambda n: n.held))
+            if len(self.sample_ops) < 80:
+                self.sample_ops.append("sweep-item")
+
     def go(self) -> None:
         self.configure()
-        for _ in range(self.n_ops):
-            self.step()
+        if self.workload == 1:
+            self.value_sweep()
+        else:
+            for _ in range(self.n_ops):
+                self.step()
         for n in self.nodes:
             if n.held:
                 self.op_report(n)
@@ -670,7 +726,9 @@ class C11(Check):
     technique = ("deterministic simulation: a tape-driven coordinator schedules value exchange between separate "
                  "interpreter processes with different PYTHONHASHSEED; injected node restarts; oracles at every "
                  "import / copy / report / corpus read")
-    rule = ("one run = one tape-decided history (2-4 interpreter processes with distinct hash seeds, 10-60 "
+    rule = ("two workloads, chosen by the tape (3:1): 'cluster-history' and 'value-sweep' (one stored example, 4-10 "
+            "mutants of it, each built / touched / derived from / sent through JSON, repr and a pickle to other nodes); "
+            "one run = one tape-decided history (2-4 interpreter processes with distinct hash seeds, 10-60 "
             "operations: build -- from a generated recipe, a stored example, or a stored example whose literals were "
             "mutated --, touch caches, copy, derive through a public method, export via JSON/gzip/pickle 2-5/repr, "
             "import on any node, report, qid sort, corpus read, drop, real restart); non-trivial = at least one payload was imported "
@@ -710,6 +768,9 @@ class C11(Check):
         "a derived value is compared with the same derivation of a freshly built value only when the held source "
         "writes the same JSON document as the fresh one (a source that came through a repr hop is only promised "
         "to be ==, and == ignores e.g. WaitGate's qid_shape)",
+        "zero-qubit stabilizer objects (CliffordTableau(0), StabilizerStateChForm(0), Clifford gates built on a "
+        "zero-qubit tableau) are degenerate values outside the workload: the generators never build them and a "
+        "mutated stored example that yields one is discarded (probe mutated-zero-qubit-stabilizer-discarded)",
         "I/O faults on the JSON reader/writer are not injected (the property promises nothing about torn files)",
         "completeness of the value generators over all registered classes is best-effort; the stored examples "
         "seed it",
@@ -765,7 +826,6 @@ class C11(Check):
         self._known = {e["fingerprint"] for e in Findings.load().findings if e.get("property") == P}
 
     def run_one(self, tape, ctx: Ctx) -> None:
-        ctx.workload = "cluster"
         run = _Run(self, tape, ctx)
         try:
             run.go()
